@@ -192,7 +192,7 @@ def _trace_sig(t, bad, l):
             "sub_dec": bool(t.get("opts", {}).get("sub_dec"))}
 
 
-MC_THOROUGH = {"MaxBody": 2, "TopOps": '{"eff", "await1", "moment", "ret", "setctx"}'}
+MC_THOROUGH = {"MaxBody": 2, "MaxTop": 1, "TopOps": '{"eff", "await1", "moment", "ret", "setctx"}'}    # MaxTop 2 with two-statement bodies exceeds TLC's 10^6 set limit
 
 ALL_HF = '{"none", "eff", "await2", "ret", "raise"}'
 ALL_OUT = '{"ok", "exc", "cancel"}'
